@@ -14,6 +14,15 @@ def cargo_build(profile):
     run(cmd, cwd=REPO, timeout=1800)
 
 
+def shim_build():
+    """the LD_PRELOAD clock shim behind the driver's ADV command (harness/shim/clockshim.c)"""
+    src = os.path.join(VERIF, "harness", "shim", "clockshim.c")
+    if os.path.exists(CLOCKSHIM) and os.path.getmtime(CLOCKSHIM) >= os.path.getmtime(src):
+        return
+    run(["cc", "-shared", "-fPIC", "-O2", "-o", CLOCKSHIM + ".tmp", src, "-ldl"], timeout=120)
+    os.replace(CLOCKSHIM + ".tmp", CLOCKSHIM)
+
+
 def write_env(driver, consts):
     import subprocess
     out = subprocess.run([driver], input="DUMP\n", stdout=subprocess.PIPE, stderr=subprocess.DEVNULL,
@@ -56,6 +65,7 @@ def build(profiles=("dev",), coq=True):
     with Lock("build"):
         for p in profiles:
             cargo_build(p)
+        shim_build()
         tables, _ = gen_tables.generate(DRIVER_DEV)
         consts, _ = gen_consts.generate(DRIVER_DEV)
         gen_srcconsts.generate()
